@@ -70,6 +70,8 @@ def judge(ctx, rep, spec, pristine, ptree, ops, limit, coords, model_batch, pend
     if focus == "C20" and gf and not coords:
         rep.count("accepted:" + cls)
         probs = tastelib.read_back(path, tree, limit)
+        if not probs and rep.extra.get("accepted_and_read_back", 0) % 4 == 0:
+            probs = tastelib.read_back_through_validator(path, limit); rep.count("read-back-through-the-validator-object")
         for p in probs[:2]:
             rep.fail("validation accepted the directory but " + p, case, obs)
         rep.extra["accepted_and_read_back"] = rep.extra.get("accepted_and_read_back", 0) + 1
